@@ -29,13 +29,68 @@ func fail(format string, a ...interface{}) {
 	problems = append(problems, fmt.Sprintf(format, a...))
 }
 
+// pkgObjs: the package-level objects of every parsed file (everything else an identifier resolves to is local to a
+// function: parameters, results, := and var declarations, range variables)
+var pkgObjs = map[*ast.Object]bool{}
+
+func notePkgObjs(f *ast.File) {
+	if f.Scope != nil {
+		for _, o := range f.Scope.Objects {
+			pkgObjs[o] = true
+		}
+	}
+}
+
 func parse(path string) *ast.File {
 	f, err := parser.ParseFile(fset, path, nil, parser.ParseComments)
 	if err != nil {
 		fmt.Fprintf(os.Stderr, "extract: cannot parse %s: %v\n", path, err)
 		os.Exit(2)
 	}
+	notePkgObjs(f)
 	return f
+}
+
+// alphaSrc prints statements with every LOCAL variable renamed to v0, v1, … in order of first appearance, so that a
+// fingerprint does not change when a local variable or a parameter is merely renamed. The AST is restored afterwards
+// (the structural extractions look identifiers up by name).
+func alphaSrc(print func() string, roots ...ast.Node) string {
+	names := map[*ast.Object]string{}
+	var touched []*ast.Ident
+	var old []string
+	for _, r := range roots {
+		if r == nil {
+			continue
+		}
+		ast.Inspect(r, func(n ast.Node) bool {
+			id, ok := n.(*ast.Ident)
+			if !ok || id.Obj == nil || id.Obj.Kind != ast.Var || pkgObjs[id.Obj] {
+				return true
+			}
+			nm, ok := names[id.Obj]
+			if !ok {
+				nm = fmt.Sprintf("v%d", len(names))
+				names[id.Obj] = nm
+			}
+			touched = append(touched, id)
+			old = append(old, id.Name)
+			id.Name = nm
+			return true
+		})
+	}
+	out := print()
+	for i, id := range touched {
+		id.Name = old[i]
+	}
+	return out
+}
+
+func alphaBody(l []ast.Stmt) string {
+	roots := make([]ast.Node, len(l))
+	for i, st := range l {
+		roots[i] = st
+	}
+	return alphaSrc(func() string { return bodySrc(l) }, roots...)
 }
 
 func src(n ast.Node) string {
@@ -416,7 +471,7 @@ func main() {
 					k = natList(caseValues(cc, env))
 				}
 				keys = append(keys, k)
-				bodies = append(bodies, bodySrc(cc.Body))
+				bodies = append(bodies, alphaBody(cc.Body))
 			}
 			fmt.Fprintf(&out, "def cellBytesCases : List String := %s\n", strList(keys))
 			for i, b := range bodies {
@@ -426,16 +481,16 @@ func main() {
 		}
 	}
 	if fd := findFunc(rbr, "printTimestamp", ""); fd != nil {
-		fmt.Fprintf(&out, "def printTimestampSrc : String := %s\n", fp(bodySrc(fd.Body.List)))
+		fmt.Fprintf(&out, "def printTimestampSrc : String := %s\n", fp(alphaBody(fd.Body.List)))
 	}
 	for _, name := range []string{"readLenEncInt"} {
 		if fd := findFunc(rbr, name, ""); fd != nil {
-			fmt.Fprintf(&out, "def %sSrc : String := %s\n", name, fp(bodySrc(fd.Body.List)))
+			fmt.Fprintf(&out, "def %sSrc : String := %s\n", name, fp(alphaBody(fd.Body.List)))
 		}
 	}
 	for _, name := range []string{"TableMap", "Rows"} {
 		if fd := findFunc(rbr, name, "binlogEvent"); fd != nil {
-			fmt.Fprintf(&out, "def %sSrc : String := %s\n", "fn"+name, fp(bodySrc(fd.Body.List)))
+			fmt.Fprintf(&out, "def %sSrc : String := %s\n", "fn"+name, fp(alphaBody(fd.Body.List)))
 		}
 	}
 
@@ -445,35 +500,35 @@ func main() {
 		"IsFormatDescription", "IsQuery", "IsRotate", "IsXID", "IsIntVar", "IsRand", "IsPreviousGTIDs", "IsRowsQuery",
 		"IsTableMap", "IsWriteRows", "IsUpdateRows", "IsDeleteRows", "Format", "Rotate", "Query", "IntVar", "Rand", "TableID"} {
 		if fd := findFunc(common, name, "binlogEvent"); fd != nil {
-			fmt.Fprintf(&out, "def common%sSrc : String := %s\n", name, fp(bodySrc(fd.Body.List)))
+			fmt.Fprintf(&out, "def common%sSrc : String := %s\n", name, fp(alphaBody(fd.Body.List)))
 		}
 	}
 	ev := parse(rp("replication/binlog_event.go"))
 	for _, name := range []string{"newBitmap"} {
 		if fd := findFunc(ev, name, ""); fd != nil {
-			fmt.Fprintf(&out, "def %sSrc : String := %s\n", name, fp(bodySrc(fd.Body.List)))
+			fmt.Fprintf(&out, "def %sSrc : String := %s\n", name, fp(alphaBody(fd.Body.List)))
 		}
 	}
 	for _, name := range []string{"Bit", "BitCount", "Count"} {
 		if fd := findFunc(ev, name, "Bitmap"); fd != nil {
-			fmt.Fprintf(&out, "def bitmap%sSrc : String := %s\n", name, fp(bodySrc(fd.Body.List)))
+			fmt.Fprintf(&out, "def bitmap%sSrc : String := %s\n", name, fp(alphaBody(fd.Body.List)))
 		}
 	}
 	for _, name := range []string{"IsZero", "HeaderSize"} {
 		if fd := findFunc(ev, name, "BinlogFormat"); fd != nil {
-			fmt.Fprintf(&out, "def format%sSrc : String := %s\n", name, fp(bodySrc(fd.Body.List)))
+			fmt.Fprintf(&out, "def format%sSrc : String := %s\n", name, fp(alphaBody(fd.Body.List)))
 		}
 	}
 	m56 := parse(rp("replication/binlog_event_mysql56.go"))
 	for _, name := range []string{"IsGTID", "GTID", "PreviousGTIDs", "StripChecksum"} {
 		if fd := findFunc(m56, name, "mysql56BinlogEvent"); fd != nil {
-			fmt.Fprintf(&out, "def mysql56%sSrc : String := %s\n", name, fp(bodySrc(fd.Body.List)))
+			fmt.Fprintf(&out, "def mysql56%sSrc : String := %s\n", name, fp(alphaBody(fd.Body.List)))
 		}
 	}
 	mar := parse(rp("replication/binlog_event_mariadb.go"))
 	for _, name := range []string{"IsGTID", "GTID", "StripChecksum"} {
 		if fd := findFunc(mar, name, "mariadbBinlogEvent"); fd != nil {
-			fmt.Fprintf(&out, "def mariadb%sSrc : String := %s\n", name, fp(bodySrc(fd.Body.List)))
+			fmt.Fprintf(&out, "def mariadb%sSrc : String := %s\n", name, fp(alphaBody(fd.Body.List)))
 		}
 	}
 
@@ -483,7 +538,7 @@ func main() {
 		"printJSONUint64", "printJSONDouble", "printJSONString", "printJSONOpaque", "printJSONDate", "printJSONTime",
 		"printJSONDateTime", "printJSONDecimal", "readOffsetOrSize", "readVariableLength"} {
 		if fd := findFunc(jsonF, name, ""); fd != nil {
-			fmt.Fprintf(&out, "def json_%sSrc : String := %s\n", name, fp(bodySrc(fd.Body.List)))
+			fmt.Fprintf(&out, "def json_%sSrc : String := %s\n", name, fp(alphaBody(fd.Body.List)))
 		}
 	}
 
@@ -491,53 +546,53 @@ func main() {
 	g56 := parse(rp("replication/mysql56_gtid.go"))
 	for _, name := range []string{"parseMysql56GTID", "ParseSID"} {
 		if fd := findFunc(g56, name, ""); fd != nil {
-			fmt.Fprintf(&out, "def gtid56_%sSrc : String := %s\n", name, fp(bodySrc(fd.Body.List)))
+			fmt.Fprintf(&out, "def gtid56_%sSrc : String := %s\n", name, fp(alphaBody(fd.Body.List)))
 		}
 	}
 	if fd := findFunc(g56, "String", "SID"); fd != nil {
-		fmt.Fprintf(&out, "def gtid56_SIDStringSrc : String := %s\n", fp(bodySrc(fd.Body.List)))
+		fmt.Fprintf(&out, "def gtid56_SIDStringSrc : String := %s\n", fp(alphaBody(fd.Body.List)))
 	}
 	if fd := findFunc(g56, "String", "Mysql56GTID"); fd != nil {
-		fmt.Fprintf(&out, "def gtid56_GTIDStringSrc : String := %s\n", fp(bodySrc(fd.Body.List)))
+		fmt.Fprintf(&out, "def gtid56_GTIDStringSrc : String := %s\n", fp(alphaBody(fd.Body.List)))
 	}
 	s56 := parse(rp("replication/mysql56_gtid_set.go"))
 	for _, name := range []string{"parseInterval", "parseMysql56GTIDSet", "NewMysql56GTIDSetFromSIDBlock"} {
 		if fd := findFunc(s56, name, ""); fd != nil {
-			fmt.Fprintf(&out, "def set56_%sSrc : String := %s\n", name, fp(bodySrc(fd.Body.List)))
+			fmt.Fprintf(&out, "def set56_%sSrc : String := %s\n", name, fp(alphaBody(fd.Body.List)))
 		}
 	}
 	for _, name := range []string{"SIDs", "String", "ContainsGTID", "Contains", "Equal", "AddGTID", "SIDBlock"} {
 		if fd := findFunc(s56, name, "Mysql56GTIDSet"); fd != nil {
-			fmt.Fprintf(&out, "def set56_%sSrc : String := %s\n", name, fp(bodySrc(fd.Body.List)))
+			fmt.Fprintf(&out, "def set56_%sSrc : String := %s\n", name, fp(alphaBody(fd.Body.List)))
 		}
 	}
 	if fd := findFunc(s56, "contains", "interval"); fd != nil {
-		fmt.Fprintf(&out, "def set56_ivContainsSrc : String := %s\n", fp(bodySrc(fd.Body.List)))
+		fmt.Fprintf(&out, "def set56_ivContainsSrc : String := %s\n", fp(alphaBody(fd.Body.List)))
 	}
 	if fd := findFunc(s56, "Less", "sidList"); fd != nil {
-		fmt.Fprintf(&out, "def set56_sidLessSrc : String := %s\n", fp(bodySrc(fd.Body.List)))
+		fmt.Fprintf(&out, "def set56_sidLessSrc : String := %s\n", fp(alphaBody(fd.Body.List)))
 	}
 	if fd := findFunc(s56, "Less", "intervalList"); fd != nil {
-		fmt.Fprintf(&out, "def set56_ivLessSrc : String := %s\n", fp(bodySrc(fd.Body.List)))
+		fmt.Fprintf(&out, "def set56_ivLessSrc : String := %s\n", fp(alphaBody(fd.Body.List)))
 	}
 	mg := parse(rp("replication/mariadb_gtid.go"))
 	for _, name := range []string{"parseMariadbGTID", "parseMariadbGTIDSet"} {
 		if fd := findFunc(mg, name, ""); fd != nil {
-			fmt.Fprintf(&out, "def maria_%sSrc : String := %s\n", name, fp(bodySrc(fd.Body.List)))
+			fmt.Fprintf(&out, "def maria_%sSrc : String := %s\n", name, fp(alphaBody(fd.Body.List)))
 		}
 	}
 	if fd := findFunc(mg, "String", "MariadbGTID"); fd != nil {
-		fmt.Fprintf(&out, "def maria_GTIDStringSrc : String := %s\n", fp(bodySrc(fd.Body.List)))
+		fmt.Fprintf(&out, "def maria_GTIDStringSrc : String := %s\n", fp(alphaBody(fd.Body.List)))
 	}
 	for _, name := range []string{"String", "ContainsGTID", "Contains", "Equal", "AddGTID"} {
 		if fd := findFunc(mg, name, "MariadbGTIDSet"); fd != nil {
-			fmt.Fprintf(&out, "def mariaSet_%sSrc : String := %s\n", name, fp(bodySrc(fd.Body.List)))
+			fmt.Fprintf(&out, "def mariaSet_%sSrc : String := %s\n", name, fp(alphaBody(fd.Body.List)))
 		}
 	}
 	gt := parse(rp("replication/gtid.go"))
 	for _, name := range []string{"ParseGTID", "EncodeGTID", "DecodeGTID"} {
 		if fd := findFunc(gt, name, ""); fd != nil {
-			fmt.Fprintf(&out, "def gtid_%sSrc : String := %s\n", name, fp(bodySrc(fd.Body.List)))
+			fmt.Fprintf(&out, "def gtid_%sSrc : String := %s\n", name, fp(alphaBody(fd.Body.List)))
 		}
 	}
 	out.WriteString("end GV.Facts\n\n")
@@ -595,23 +650,23 @@ func main() {
 	emitMap("statementStrings", false)
 	emitMap("columnTypeStrings", false)
 	if fd := findFunc(types, "GetStatementCategory", ""); fd != nil {
-		fmt.Fprintf(&out, "def getStatementCategorySrc : String := %s\n", fp(bodySrc(fd.Body.List)))
+		fmt.Fprintf(&out, "def getStatementCategorySrc : String := %s\n", fp(alphaBody(fd.Body.List)))
 	}
 	if fd := findFunc(types, "String", "StatementType"); fd != nil {
-		fmt.Fprintf(&out, "def statementTypeStringSrc : String := %s\n", fp(bodySrc(fd.Body.List)))
+		fmt.Fprintf(&out, "def statementTypeStringSrc : String := %s\n", fp(alphaBody(fd.Body.List)))
 	}
 	if fd := findFunc(types, "String", "ColumnType"); fd != nil {
-		fmt.Fprintf(&out, "def columnTypeStringSrc : String := %s\n", fp(bodySrc(fd.Body.List)))
+		fmt.Fprintf(&out, "def columnTypeStringSrc : String := %s\n", fp(alphaBody(fd.Body.List)))
 	}
 
 	// 9b. error.go: the error wrapper
 	errF := parse(rp("error.go"))
 	if fd := findFunc(errF, "newError", ""); fd != nil {
-		fmt.Fprintf(&out, "def error_newErrorSrc : String := %s\n", fp(bodySrc(fd.Body.List)))
+		fmt.Fprintf(&out, "def error_newErrorSrc : String := %s\n", fp(alphaBody(fd.Body.List)))
 	}
 	for _, name := range []string{"msgf", "Original", "Error"} {
 		if fd := findFunc(errF, name, "Error"); fd != nil {
-			fmt.Fprintf(&out, "def error_%sSrc : String := %s\n", name, fp(bodySrc(fd.Body.List)))
+			fmt.Fprintf(&out, "def error_%sSrc : String := %s\n", name, fp(alphaBody(fd.Body.List)))
 			if name == "Error" {
 				fmt.Fprintf(&out, "def error_ErrorFormats : List String := %s\n", strList(formatLits(fd, "fmt.Sprintf")))
 			}
@@ -723,7 +778,7 @@ func streamerFacts(f *ast.File) {
 	normalise(f)
 	pe := findFunc(f, "parseEvents", "Streamer")
 	if pe != nil {
-		fmt.Fprintf(&out, "def parseEventsSrc : String := %s\n", fp(bodySrc(pe.Body.List)))
+		fmt.Fprintf(&out, "def parseEventsSrc : String := %s\n", fp(alphaBody(pe.Body.List)))
 		// closures begin / commit
 		for _, s := range pe.Body.List {
 			as, ok := s.(*ast.AssignStmt)
@@ -828,17 +883,17 @@ func streamerFacts(f *ast.File) {
 		fmt.Fprintf(&out, "def streamBody : List String := %s\n", strList(st))
 	}
 	if fd := findFunc(f, "Error", "Streamer"); fd != nil {
-		fmt.Fprintf(&out, "def errorSrc : String := %s\n", fp(bodySrc(fd.Body.List)))
+		fmt.Fprintf(&out, "def errorSrc : String := %s\n", fp(alphaBody(fd.Body.List)))
 	}
 	for _, name := range []string{"SetBinlogPosition", "binlogPosition"} {
 		if fd := findFunc(f, name, "Streamer"); fd != nil {
-			fmt.Fprintf(&out, "def %sSrc : String := %s\n", name, fp(bodySrc(fd.Body.List)))
+			fmt.Fprintf(&out, "def %sSrc : String := %s\n", name, fp(alphaBody(fd.Body.List)))
 		}
 	}
 	for _, name := range []string{"getValuesFromRow", "getIdentifiesFromRow", "appendInsertEventFromRows",
 		"appendUpdateEventFromRows", "appendDeleteEventFromRows"} {
 		if fd := findFunc(f, name, ""); fd != nil {
-			fmt.Fprintf(&out, "def %sSrc : String := %s\n", name, fp(bodySrc(fd.Body.List)))
+			fmt.Fprintf(&out, "def %sSrc : String := %s\n", name, fp(alphaBody(fd.Body.List)))
 		}
 	}
 }
@@ -892,7 +947,7 @@ func connFacts(f *ast.File) {
 			return true
 		})
 		fmt.Fprintf(&out, "def execLiterals : List String := %s\n", strList(lits))
-		fmt.Fprintf(&out, "def prepareForReplicationSrc : String := %s\n", fp(bodySrc(fd.Body.List)))
+		fmt.Fprintf(&out, "def prepareForReplicationSrc : String := %s\n", fp(alphaBody(fd.Body.List)))
 	}
 	if fd := findFunc(f, "startDumpFromBinlogPosition", "slaveConnection"); fd != nil {
 		var calls []string
@@ -919,15 +974,15 @@ func connFacts(f *ast.File) {
 			}
 			fmt.Fprintf(&out, "def readerBody : List String := %s\n", strList(st))
 		}
-		fmt.Fprintf(&out, "def startDumpSrc : String := %s\n", fp(bodySrc(fd.Body.List)))
+		fmt.Fprintf(&out, "def startDumpSrc : String := %s\n", fp(alphaBody(fd.Body.List)))
 	}
 	for _, name := range []string{"readBinlogEvent", "close"} {
 		if fd := findFunc(f, name, "slaveConnection"); fd != nil {
-			fmt.Fprintf(&out, "def conn_%sSrc : String := %s\n", name, fp(bodySrc(fd.Body.List)))
+			fmt.Fprintf(&out, "def conn_%sSrc : String := %s\n", name, fp(alphaBody(fd.Body.List)))
 		}
 	}
 	if fd := findFunc(f, "newSlaveConnection", ""); fd != nil {
-		fmt.Fprintf(&out, "def newSlaveConnectionSrc : String := %s\n", fp(bodySrc(fd.Body.List)))
+		fmt.Fprintf(&out, "def newSlaveConnectionSrc : String := %s\n", fp(alphaBody(fd.Body.List)))
 	}
 }
 
@@ -957,12 +1012,12 @@ func txFacts(tx, pos, tbl *ast.File) {
 	normalise(tx)
 	for _, rc := range []string{"Transaction", "StreamEvent", "ColumnData"} {
 		if fd := findFunc(tx, "MarshalJSON", rc); fd != nil {
-			fmt.Fprintf(&out, "def marshal%sSrc : String := %s\n", rc, fp(bodySrc(fd.Body.List)))
+			fmt.Fprintf(&out, "def marshal%sSrc : String := %s\n", rc, fp(alphaBody(fd.Body.List)))
 		}
 	}
 	for _, name := range []string{"newTransaction", "newStreamEvent", "newRowData", "newColumnData"} {
 		if fd := findFunc(tx, name, ""); fd != nil {
-			fmt.Fprintf(&out, "def %sSrc : String := %s\n", name, fp(bodySrc(fd.Body.List)))
+			fmt.Fprintf(&out, "def %sSrc : String := %s\n", name, fp(alphaBody(fd.Body.List)))
 		}
 	}
 	fmt.Fprintf(&out, "def txStructTags : List String := %s\n", strList(structTags(tx)))
@@ -1008,6 +1063,7 @@ func fileFacts(repo string) {
 			fail("cannot parse %s", f)
 			continue
 		}
+		notePkgObjs(af)
 		var inv []string
 		var body strings.Builder
 		for _, d := range af.Decls {
@@ -1035,7 +1091,8 @@ func fileFacts(repo string) {
 				}
 			}
 			normalise(d)
-			body.WriteString(src(d))
+			dd := d
+			body.WriteString(alphaSrc(func() string { return src(dd) }, dd))
 			body.WriteByte('\n')
 		}
 		sort.Strings(inv)
